@@ -272,6 +272,48 @@ def oracle(ctx):
             if got != want:
                 ctx.violation('the fallback of tal:on-error reads error.type / value / lineno / offset of the expression that failed',
                               {'src': src}, expected=want, actual=got)
+    # any Exception is handled, whatever its class does with its arguments: constructors that do not take what ends up in `args`,
+    # that format their argument, keyword-only or argument-less ones, OSError's errno dispatch, KeyError's quoting
+    class Validation(Exception):
+        def __init__(self, field, reason):
+            super().__init__('%s: %s' % (field, reason))
+            self.field = field
+
+    class Status(Exception):
+        def __init__(self, code):
+            super().__init__('status %s' % code)
+            self.code = code
+
+    class KwOnly(Exception):
+        def __init__(self, *, detail='d'):
+            super().__init__(detail)
+
+    class NoArgs(Exception):
+        def __init__(self):
+            super().__init__('fixed text')
+
+    class Two(Exception):
+        def __str__(self):
+            return 'two:%s/%s' % self.args
+    EXC = [(lambda: Validation('quantity', 'must be positive'), 'Validation', 'quantity: must be positive'), (lambda: Status(503), 'Status', 'status 503'),
+           (lambda: KwOnly(detail='x<y'), 'KwOnly', 'x&lt;y'), (NoArgs, 'NoArgs', 'fixed text'), (lambda: Two(1, 2), 'Two', 'two:1/2'),
+           (lambda: OSError(2, 'No such file'), 'FileNotFoundError', '[Errno 2] No such file'), (lambda: KeyError('k'), 'KeyError', "'k'"),
+           (lambda: UnicodeDecodeError('utf-8', b'x', 0, 1, 'bad'), 'UnicodeDecodeError', "'utf-8' codec can't decode byte 0x78 in position 0: bad")]
+    for mk, name, text in EXC:
+        calls = []
+
+        def fail(mk=mk):
+            raise mk()
+        src = '<b>a</b><div class="box" tal:on-error="string:failed (${error.type.__name__}): ${error.value}">x ${fail()} y</div><b>z</b>'
+        want = '<b>a</b><div class="box">failed (%s): %s</div><b>z</b>' % (name, text)
+        ctx.count('evaluations')
+        try:
+            got = PageTemplate(src, on_error_handler=calls.append)(fail=fail)
+        except Exception as e:
+            got = {'exc': type(e).__name__, 'msg': str(e).split('\n')[0][:100]}
+        if got != want or len(calls) != 1 or type(calls[0]).__name__ != name:
+            ctx.violation('tal:on-error handles any Exception: the fallback reads error.type and error.value, the handler is called once',
+                          {'src': src, 'raises': name}, expected={'out': want, 'handler_calls': 1}, actual={'out': got, 'handler_calls': [type(c).__name__ for c in calls]})
     # D-13d: tal:on-error written on a metal:fill-slot element is dropped (the filler is stored before the handler is wrapped around it)
     r = pipeline.run_impl({'src': D13D, 'vars': []})
     if r.get('out') != D13D_EXPECT:
